@@ -5,6 +5,7 @@ import CkbVerif.Model.Hash
 import CkbVerif.Model.HashView
 import CkbVerif.Model.HashProof
 import CkbVerif.Model.MolSize
+import CkbVerif.Model.JsonMap
 import CkbVerif.Gen.Schemas
 
 /-! Line-protocol driver for C15 (protocol: harness/hcore/src/c15.rs).
@@ -19,6 +20,7 @@ Stream `json`:
   jp <bits> <string>          -> ok <n> | err          model: `Json.parseUint`
   jb <hex>                    -> <0x-hex string>       model: `Json.showBytes`
   jq <string>                 -> ok <hex> | err        model: `Json.parseBytes`
+  jm <Type> <Branch>          -> fwd=<json=packed,..> back=<json=packed,..>   the GENERATED field maps (`Gen/JsonMap.lean`) vs the maps probed on the real conversions
 
 Stream `view` (harness/hcore/src/c15_term.rs; model: `Model/Hash.lean` over the free term algebra `Dg`):
   cbmt <n>                    -> <term>                `merkleRoot` over n leaves h<i as 2 bytes LE>
@@ -209,6 +211,21 @@ def stepJson (ts : List String) : String :=
     match CkbVerif.Json.parseBytes s.toList with
     | some bs => "ok " ++ hexOf bs
     | none => "err"
+  | ["jm", ty, br] =>
+    -- the field maps of the GENERATED table (bin/gen.d/jsonmap.py), restricted to what the branch writes
+    match CkbVerif.Gen.JsonMap.all.find? (fun t => t.name == ty) with
+    | some t =>
+      match t.back.find? (fun b => b.1 == br) with
+      | some b =>
+        let targets := CkbVerif.JsonMap.branchTargets t b.2
+        let side := fun (es : List CkbVerif.Gen.JsonMap.Entry) =>
+          ",".intercalate (targets.flatMap fun p =>
+            match es.filter (fun e => e.packed == p) with
+            | [] => ["?=" ++ p]
+            | l => l.map fun e => e.json ++ "=" ++ p)
+        "fwd=" ++ side t.fwd ++ " back=" ++ side b.2
+      | none => "bad-op"
+    | none => "bad-op"
   | _ => "bad-op"
 
 partial def showDg : CkbVerif.Hash.Dg → String
